@@ -255,7 +255,7 @@ impl Ctx {
 
     fn watchdog(&self) {
         let limit = Duration::from_secs(
-            std::env::var("VERIF_HANG_SECS").ok().and_then(|s| s.parse().ok()).unwrap_or(90),
+            std::env::var("VERIF_HANG_SECS").ok().and_then(|s| s.parse().ok()).unwrap_or(60),
         );
         while !self.done.load(Ordering::SeqCst) {
             std::thread::sleep(Duration::from_millis(500));
@@ -284,7 +284,7 @@ impl Ctx {
         let status = std::process::Command::new("sh")
             .arg("-c")
             .arg(format!(
-                "ulimit -v 8000000; exec timeout 240 {} {} --replay {}",
+                "ulimit -v 8000000; exec timeout 150 {} {} --replay {}",
                 exe.display(),
                 self.prop,
                 path
